@@ -1494,8 +1494,11 @@ def run_obs(ctx, case, model=True):
             if any("np-int" in b for b in bad.values()):
                 ctx.tag("hist/rejected-numpy-ids")
             if r[0] == "ok":
-                # the library took the argument after all: not a rejected call, nothing this dimension is about
-                raise InfraError(f"update_initial_state accepted the invalid argument(s) {bad}: the generator's notion of 'rejected' is out of date")
+                # the library took the argument after all (e.g. it learnt to accept numpy integers): not a rejected call, nothing this
+                # dimension is about - the case is outside the quantifier from here on (the hist/rejected-arg-* buckets notice a total loss)
+                ctx.excluded += 1
+                ctx.tag("hist/invalid-argument-accepted")
+                return
             # oracle: a rejected call leaves the four lists as they were, or all four one entry longer by the four values that were current
             # together when the call began - nothing in between (the property's 'all history lists of equal length', entry i of each list
             # belonging to the same previous state); the bound is owed again by the next accepted call
